@@ -437,6 +437,11 @@ func c16Uncommitted(c *Check) {
 			continue
 		}
 		ok, und, detail := ifi.pathsImplyOpt(ret, -1, spec, true)
+		if isFalse {
+			// a gate that refuses more than this still keeps the bound: recorded, not required
+			c.Info(ok && !und, "C16.U", "increaseUncommittedSize refuses only over the limit", fnName(incr), p.site(ret), what, detail)
+			continue
+		}
 		if und {
 			c.Undecided("C16.U", "increaseUncommittedSize gate", fnName(incr), p.site(ret), what, detail)
 		} else {
